@@ -1,0 +1,5 @@
+//go:build !verif
+
+package influxql
+
+func verifEv(kind string, a, b int, ch rune) {}
